@@ -343,3 +343,65 @@ func (cr *concRun) checkConcIter() {
 		}
 	}
 }
+
+// checkRejectedLoads (C10, C11 for reloads): a bulk loader that returns an error next to a (partial)
+// map has failed; "a failed load ... leaves the cache unchanged", so none of the values in that map
+// may ever be cached, returned by a read, yielded by an iterator or reported by a deletion event.
+func (cr *concRun) checkRejectedLoads() {
+	rej := map[int]*loadRec{}
+	for _, l := range cr.r.Loads {
+		for _, v := range l.Rejected {
+			rej[v] = l
+		}
+	}
+	if len(rej) == 0 {
+		return
+	}
+	cr.probe["failed-bulk-load-returned-a-map"]++
+	bad := func(v int, where string) {
+		l := rej[v]
+		if l == nil {
+			return
+		}
+		props := P("C10")
+		if l.Reload {
+			props = P("C10", "C11")
+		}
+		cr.fail(props, "load.failed-load-cached", -1, "value %d was returned by a bulk loader call that failed (keys %v, reload=%v), yet %s", v, l.Keys, l.Reload, where)
+	}
+	for _, e := range cr.finalAll {
+		bad(e.V, "the cache finally holds it")
+	}
+	for _, e := range cr.rawNoCleanup {
+		bad(e.Value, "the table holds it at quiescence")
+	}
+	for _, ev := range cr.r.Events {
+		bad(ev.V, "a deletion event reports it")
+	}
+	for _, h := range cr.hist {
+		if !h.Done {
+			continue
+		}
+		switch h.Op.Kind {
+		case "get", "getentry", "getquiet", "set", "setifabsent", "invalidate", "compute", "computeifabsent", "computeifpresent":
+			if h.Res.Ok || h.Op.Kind == "set" || h.Op.Kind == "setifabsent" {
+				bad(h.Res.V, h.Op.Kind+" returned it")
+			}
+			if h.Res.CompFound {
+				bad(h.Res.CompSaw, "a compute function was given it")
+			}
+		case "load":
+			if h.Res.Err == "" {
+				bad(h.Res.V, "Get returned it")
+			}
+		case "bulkget":
+			for _, v := range h.Res.Map {
+				bad(v, "BulkGet returned it")
+			}
+		case "all", "values", "hottest", "coldest":
+			for _, e := range h.Res.Entries {
+				bad(e.V, h.Op.Kind+" yielded it")
+			}
+		}
+	}
+}
